@@ -118,7 +118,12 @@ MergeOne(st, mi) ==
                        \o <<<<m.pos, "mnp", mi, 0, item(1)[5], 0>>>>
                        \o [j \in 1..(Len(m.offs) - 1) |->
                              <<m.pos + m.offs[j + 1], "ref", 0, 0, item(j + 1)[5], item(j + 1)[6]>>],
-               !.mnpq = Append(@, <<mi, item(1)[5], lo, hi, Len(m.offs)>>)]
+               !.mnpq = Append(@, <<mi, item(1)[5], lo, hi, Len(m.offs)>>),
+               \* the phase record shows the merged substitution: the variant at its first position,
+               \* the reference at the later ones (as the table counts them)
+               !.phase = LET later == {m.pos + m.offs[j] : j \in 2..Len(m.offs)} IN
+                         [s \in DOMAIN @ |-> IF s = m.pos THEN <<"mnp", mi, 0>>
+                                             ELSE IF s \in later THEN <<"ref", 0, 0>> ELSE @[s]]]
 RECURSIVE MergeFrom(_, _)
 MergeFrom(st, mi) == IF mi > Len(G.mnps) THEN st ELSE MergeFrom(MergeOne(st, mi), mi + 1)
 Merge(st) == MergeFrom(st, 1)
@@ -195,7 +200,13 @@ OpTable(rs)   == SumBags([i \in Elig(rs) |-> RunReadBag(rs[i])], Elig(rs))
 (* what one read shows at a site (alleles as recorded in the phase record) *)
 Shows(r, s) ==
     (IF MCover(r, s) = {} THEN {}
-     ELSE LET b == BaseAt(r, s) IN {IF Mapped(s) /\ b # RefAt(s) THEN <<"sub", RefAt(s), b>> ELSE <<"ref", 0, 0>>})
+     ELSE LET b == BaseAt(r, s)
+              firstOf == {i \in DOMAIN G.mnps : G.mnps[i].pos = s /\ Complete(r, G.mnps[i])}
+              laterOf == {i \in DOMAIN G.mnps : Complete(r, G.mnps[i])
+                                                /\ \E x \in 2..Len(G.mnps[i].offs) : G.mnps[i].pos + G.mnps[i].offs[x] = s}
+          IN IF firstOf # {} THEN {<<"mnp", i, 0>> : i \in firstOf}
+             ELSE IF laterOf # {} THEN {<<"ref", 0, 0>>}
+             ELSE {IF Mapped(s) /\ b # RefAt(s) THEN <<"sub", RefAt(s), b>> ELSE <<"ref", 0, 0>>})
     \cup {<<"del", r.cigar[j][2], 0>> : j \in {x \in DOMAIN r.cigar : r.cigar[x][1] = 2 /\ r.start + RefPrefix(r.cigar, x - 1) = s}}
     \cup {<<"ins", r.cigar[j][2], Code(r.seq, QPrefix(r.cigar, j - 1) + 1, r.cigar[j][2])>> :
               j \in {x \in DOMAIN r.cigar : r.cigar[x][1] = 1 /\ r.start + RefPrefix(r.cigar, x - 1) - 1 = s}}
